@@ -1174,6 +1174,11 @@ def build_catalogue() -> Catalogue:
 
     cat.add(Op("ic:SineWaves1d", _sines, ("exponax.ic.SineWaves1d", "exponax.ic.RandomSineWaves1d"), "ic1"))
 
+    # ---------------------------------------------------------------- reference-model operations (models.py)
+    import models
+
+    models.add_model_ops(cat, Op)
+
     return cat
 
 
